@@ -45,6 +45,8 @@ def _shard(name, shard, nshards, tier, seed):
                 d = int(rng.integers(1, 4)); ns = int(rng.integers(1, 4 if d > 2 else 5))
                 dt = str(rng.choice(['int', 'float', 'complex']))
                 v = gen.exact_values(rng, (d ** ns,), dt)
+                if rng.random() < 0.06:
+                    v = np.zeros_like(v)    # the zero vector (F12: every singular value is discarded, dummy bond kept)
                 tol = float(rng.choice([0.125, 0.25, 0.5, 0.0625]))
                 rec = kernels.Recorder()
 
@@ -141,7 +143,7 @@ def oracle_from_vector(d, ns, v, tol):
         return f'raises {type(ex).__name__}: {ex}'
     err = np.linalg.norm(dense_mps(m) - v)
     if err > np.linalg.norm(v) * np.sqrt(ns * tol) + 1e-9 * max(1, np.linalg.norm(v)):
-        return f'from_vector relative error {err / np.linalg.norm(v):.6g} exceeds sqrt(L*tol) = {np.sqrt(ns * tol):.6g}'
+        return f'from_vector error {err:.6g} exceeds sqrt(L*tol) * |v| = {np.sqrt(ns * tol) * np.linalg.norm(v):.6g}'
     return None
 
 
@@ -204,6 +206,8 @@ def oracle_case(rng):
     d = int(rng.integers(1, 4)); ns = int(rng.integers(1, 5))
     v = rng.standard_normal(d ** ns) + (1j * rng.standard_normal(d ** ns) if cplx else 0)
     tol = float(rng.choice([0, 1e-6, 1e-2, 0.1, 0.9 / ns]))
+    if rng.random() < 0.1:
+        v = np.zeros_like(v)     # regression corpus of F12 (zero vector: the bound reads 0 <= 0)
     return oracle_from_vector(d, ns, v, tol)
 
 
